@@ -109,7 +109,7 @@ def run_case(case):
     with env.Scratch() as sc:
         mb = {"fs": None, "fs+4KiB": 4 * env.KIB, "fs+16MiB": 16}[bname]
         st = env.fs_backend(sc.path("s"), cache_mb=mb)
-        env.set_env(sc.path("env"), default_storage=st)
+        env.set_env(sc.path("env"), default_storage=st, clusters={"c": env.fs_backend(sc.path("c"), cache_mb=mb)})
         plain = env.fs_backend(sc.path("s"))
         held = []
         for l in range(L):
@@ -206,6 +206,29 @@ def run_case(case):
                 if sm is not None:
                     check_partition(out, fail, plain.read_result(sm), want, label, what + ", re-read from disk")
                 held.append((("sib", tag, j), got, want))
+        # a child that lives in another cluster (another store) than its parent
+        if L > 1 and not out["viol"]:
+            j = rng.randint(1, L - 1)
+            sk = rng.sample(KEYPOOL, rng.randint(1, 3))
+            sspec = {"kind": rng.choice(["mem", "disk"]), "make": level_factory(case["seed"], case["idx"], "sibx", sk), "container": "dict"}
+            ffuncs.TABLE[cid + "/sib/x"] = sspec
+            want = dict(overlays[j - 1])
+            want.update(sspec["make"]())
+            what = "child (keys %s) of level %d stored in another cluster" % (sk, j - 1)
+            try:
+                got = ffuncs.csibling(cid, j, "x")
+                out["obs"]["children_stored_in_another_cluster"] += 1
+                check_partition(out, fail, got, want, label, what + ", value handed back by the computing call")
+                mark = REC.mark()
+                later = ffuncs.csibling(cid, j, "x")
+                if REC.since(mark):
+                    fail("a partition result was not memoized (body ran again on the next call)", "%s %s" % (label, what))
+                check_partition(out, fail, later, want, label, what + ", later call")
+                cm = ffuncs.csibling.memento(cid, j, "x")
+                if cm is not None:
+                    check_partition(out, fail, env.fs_backend(sc.path("c")).read_result(cm), want, label, what + ", re-read from disk")
+            except Exception as e:
+                fail("call returning a partition raises " + type(e).__name__, "%s %s: %r" % (label, what, e))
         # a function that hands on, as its own result, the partition another function returned (computed just now, served
         # from the cache, or read back from disk)
         if not out["viol"]:
